@@ -6,28 +6,48 @@ from .rules.common import contexts, where, short
 
 
 def clean_field(cat):
-    """The protocol attribute that remembers CONNECT's clean-session flag (assigned from the request in connect)."""
+    """The protocol attribute that remembers CONNECT's clean-session flag, and where it is recorded.
+    Returns (field, recorded_on_every_accepting_connect_path, event)."""
+    conn = ("attr", SELF, "connReq")
+    field = None
+    ev = None
+    accept = 0
+    recorded = 0
     for tr in contexts(cat):
-        if tr.kind != "API" or tr.name != "connect":
-            continue
-        for e in tr.events:
-            if e.kind == "SETATTR" and e.a["obj"] == SELF and e.a["val"] == ("param", "cleanStart"):
-                return e.a["field"]
-    raise AnalysisError("anchor vanished: no protocol field is assigned connect()'s cleanStart")
+        if tr.kind == "API" and tr.name == "connect" and tr.slot == "IDLE":
+            wrote = any(e.kind == "WRITE" for e in tr.events)
+            if wrote:
+                accept += 1
+            for e in tr.events:
+                if e.kind == "SETATTR" and e.a["obj"] == SELF and e.a["val"] == ("param", "cleanStart"):
+                    field, ev = e.a["field"], e
+                    if wrote:
+                        recorded += 1
+    if field is None:
+        for tr in contexts(cat):
+            for e in tr.events:
+                if e.kind == "SETATTR" and e.a["obj"] == SELF and e.a["val"] == ("attr", conn, "cleanStart"):
+                    field, ev = e.a["field"], e
+    if field is None:
+        raise AnalysisError("anchor vanished: no protocol field is assigned connect()'s cleanStart")
+    return field, (accept > 0 and recorded == accept), ev
 
 
 def clean_fact(path, field):
-    facts = path.st.facts if path.st is not None else {}
-    t = ("attr", SELF, field)
-    v = facts.get(("truthy", t))
-    if v is None:
-        for k, val in facts.items():
-            if isinstance(k, tuple) and k[0] == "cmp" and k[2] == t and is_const(k[3]) and isinstance(k[3][1], bool):
-                if k[1] in ("==", "is"):
-                    v = val if k[3][1] else (not val)
-                elif k[1] in ("!=", "is not"):
-                    v = (not val) if k[3][1] else val
-    return v
+    """Truth of the clean-session flag on this path (from its branch conditions), or None if the path does not test it."""
+    aliases = (("attr", SELF, field), ("attr", ("attr", SELF, "connReq"), "cleanStart"), ("param", "cleanStart"))
+    for c in path.conds:
+        t, pol = c.term, c.pol
+        while isinstance(t, tuple) and t and t[0] == "not":
+            t, pol = t[1], not pol
+        if t in aliases:
+            return pol
+        if isinstance(t, tuple) and t[0] == "cmp" and t[2] in aliases and is_const(t[3]) and isinstance(t[3][1], bool):
+            if t[1] in ("==", "is"):
+                return pol if t[3][1] else (not pol)
+            if t[1] in ("!=", "is not"):
+                return (not pol) if t[3][1] else pol
+    return None
 
 
 def loop_over(e, reg):
@@ -77,6 +97,8 @@ def drains(events, reg):
     for lp in loops_over(events, reg):
         ok = True
         fires = []
+        if lp.a.get("lkind") == "while" and not _emptiness_test(lp.a.get("test"), reg):
+            continue       # a while loop drains the registry only if it runs until the registry is empty
         for bp in lp.a["body"]:
             if bp.exit_kind() not in ("fall", "continue"):
                 ok = False
@@ -96,6 +118,20 @@ def drains(events, reg):
         if ok and fires:
             return True, fires
     return False, []
+
+
+def _emptiness_test(t, reg):
+    """Is the loop test exactly 'the registry is not empty'?  (R, len(R), len(R) > 0, len(R) != 0, len(R) >= 1)"""
+    def is_reg(x):
+        return isinstance(x, tuple) and x[:2] == ("reg", reg)
+
+    def is_len(x):
+        return isinstance(x, tuple) and x[0] == "call" and x[1] == ("builtin", "len") and len(x[2]) == 1 and is_reg(x[2][0])
+    if is_reg(t) or is_len(t):
+        return True
+    if isinstance(t, tuple) and t[0] == "cmp" and is_len(t[2]) and is_const(t[3]):
+        return (t[1], t[3][1]) in ((">", 0), ("!=", 0), (">=", 1))
+    return False
 
 
 def body_rearms(bp, reg):
@@ -156,7 +192,7 @@ class Lifecycle:
         self.a = analysis
         self.cat = catalogue(analysis, cls)
         self.cls = cls
-        self.clean = clean_field(self.cat)
+        self.clean, self.clean_at_connect, self.clean_event = clean_field(self.cat)
         trs = contexts(self.cat)
         self.loss = [tr for tr in trs if tr.kind == "LOSS"]
         self.loss_clean = [tr for tr in self.loss if clean_fact(tr.path, self.clean) is True]
